@@ -51,11 +51,11 @@ def proj(st, rk, wk=None):
     }
 
 
-def mix_constants(rmix, wmix):
+def mix_constants(rmix, wmix, pre="none"):
     """rmix/wmix: lists of kinds -> (constants dict for the cfg, R map, W map)"""
     rk = {"r%d" % (i + 1): k for i, k in enumerate(rmix)}
     wk = {"w%d" % (i + 1): k for i, k in enumerate(wmix)}
-    consts = {}
+    consts = {"PreResolved": '"%s"' % {"exc_throw": "exc"}.get(pre, pre)}
     for k, c in RCONST.items():
         consts[c] = "{" + ", ".join(r for r, kk in rk.items() if kk == k) + "}"
     for k, c in WCONST.items():
@@ -71,13 +71,15 @@ def fix_empty(st):
     return st
 
 
-def run_mix(ctx, rp, rmix, wmix, tag, max_paths=None, extra_random=0, bind=False):
-    consts, rk, wk = mix_constants(rmix, wmix)
+def run_mix(ctx, rp, rmix, wmix, tag, max_paths=None, extra_random=0, bind=False, pre="none"):
+    consts, rk, wk = mix_constants(rmix, wmix, pre)
 
     def hdr(k, st0):
         h = {"R": rk, "W": wk, "form": k % 6}
         if bind:
             h["bind"] = True
+        if pre != "none":
+            h["pre"] = pre
         return h
 
     def pj(st):
@@ -85,6 +87,8 @@ def run_mix(ctx, rp, rmix, wmix, tag, max_paths=None, extra_random=0, bind=False
     must = list(ACTIONS)
     if not wmix:
         must = [a for a in must if a not in ("CheckReady", "SubCAS")]
+    if pre != "none":
+        must = [a for a in must if a in ("CheckReady",)] if any(k != "cb" for k in wmix) else []
     if all(k in ("dtor", "final") for k in rmix):
         must = [a for a in must if a != "Claim"]
     if wmix and all(k == "cb" for k in wmix):
@@ -137,7 +141,7 @@ def build_ref(ctx):
                                 sanitize=not ctx.quick, extra_flags=["-DPAYLOAD_REF"])
 
 
-def run_mixes(ctx, rp, jobs, max_paths=None, par=6, tagp="m", bind=False):
+def run_mixes(ctx, rp, jobs, max_paths=None, par=6, tagp="m", bind=False, pre="none"):
     """jobs: list of (rmix, wmix); TLC + replay per mix, several mixes in parallel"""
     from concurrent.futures import ThreadPoolExecutor
     errs = []
@@ -147,7 +151,7 @@ def run_mixes(ctx, rp, jobs, max_paths=None, par=6, tagp="m", bind=False):
             return
         r, w = jobs[k]
         try:
-            run_mix(ctx, rp, r, w, "%s%d" % (tagp, k), max_paths=max_paths, bind=bind)
+            run_mix(ctx, rp, r, w, "%s%d" % (tagp, k), max_paths=max_paths, bind=bind, pre=pre)
         except Exception as e:   # re-raised in the main thread
             errs.append(e)
     with ThreadPoolExecutor(max_workers=par) as ex:
@@ -237,6 +241,7 @@ def API_FORMS(rmix, wmix):
 
 def run_mix_fine(ctx, rp, rmix, wmix, tag, max_paths=None):
     consts, rk, wk = mix_constants(rmix, wmix)
+    consts.pop("PreResolved", None)      # (FutureFine.tla always starts from a pending future)
     must = ["SwapReady", "LSwap"]
     if wmix:
         must += ["SubCAS"]
